@@ -90,7 +90,9 @@ class GenBinding:
         base = q + [{"op": "partial_fit", "rows": [7, 8]}, {"op": "predict_expectations", "m": 3}]
         if not full:
             return [base]
-        return [base,
+        again = getattr(mab, "_verif_last_fit", None)
+        refit = [[{"op": "fit", "rows": list(again)}] + q] if again else []     # the caller fits the same arrays once more
+        return refit + [base,
                 [{"op": "warm_start", "q": [1, 2]}, {"op": "cold_arms"}] + q,
                 [{"op": "partial_fit", "rows": [9, 10]}] + q,
                 [{"op": "add_arm", "arm": "d"}] + q + [{"op": "partial_fit", "rows": [7, 8, 9, 10]}] + q,
@@ -134,6 +136,15 @@ class GenBinding:
         if mab is not None and self.contextual:
             mab._verif_width = len(rows[0][2])
         conv = getattr(mab, "_verif_bin", None) or self.preconv
+        # a caller that presents the same rows again passes the very same objects again
+        memo = self.__dict__.setdefault("_batch_memo", {})
+        key = (tuple(ids), conv)
+        if key in memo:
+            return memo[key]
+        memo[key] = out = self._make_batch(ids, rows, conv)
+        return out
+
+    def _make_batch(self, ids, rows, conv):
         if conv:
             fn = binarizers.BY_NAME[conv]
             rows = [(a, float(fn(self.lm[a], float(x))), c) for a, x, c in rows]
@@ -264,6 +275,8 @@ class GenBinding:
         op = label["op"]
         try:
             if op in ("fit", "partial_fit"):
+                if op == "fit":
+                    mab._verif_last_fit = list(label["rows"])
                 return "ok", getattr(mab, op)(*self.remember(self.batch(label["rows"], mab)))
             if op == "add_arm":
                 if self.addarm_bin and not self.preconv:
@@ -289,7 +302,7 @@ class GenBinding:
     def reject(self, mab, kind):
         arms = list(mab.arms)
         first = arms[0]
-        unknown = [v for v in self.lm.values() if v not in arms] + [{"int": 777, "str": "zz", "float": 77.5}[self.lmname]]
+        unknown = [v for v in self.lm.values() if v not in arms] + [{"int": 777, "int0": 777, "str": "zz", "float": 77.5}[self.lmname]]
         r1 = 1 if self.lp == "ts" else 1.0
         ctx1 = [[0.0] * self.dims]
         ctx2 = [[0.0] * self.dims, [1.0] * self.dims]
